@@ -255,6 +255,7 @@ func genUniverse(c *simrt.Choices, g genCfg) *Universe {
 		if g.Features["checks"] && chance(c, 1, 6, "check") {
 			s.Checks = []CheckSpec{{Key: "cond_" + s.Name, Expect: pick(c, "check-expect", "ready", "")}}
 			s.Establish = !chance(c, 1, 5, "no-establish")
+			s.CheckMS = []int{0, 0, 5, 300}[c.Choose(4, "check-ms")]
 		}
 		if g.Features["fail"] && chance(c, 1, 6, "fail") {
 			s.Fail = pick(c, "fail-kind", "exit", "omit", "slow")
